@@ -43,7 +43,7 @@ static inline Program gen_union_program(bool invalid, int inbetween) {
         return p;
     }
     HistGen g;
-    g.o.invalid = invalid; g.o.lifecycle = *chance(40); g.o.midstream = true; g.o.inbetween = inbetween; g.o.loose_tweak = true;
+    g.o.invalid = invalid; g.o.lifecycle = *chance(40); g.o.midstream = true; g.o.inbetween = inbetween; g.o.loose_tweak = true; g.o.max_rep = 600;
     int kind = *rc::gen::element((int)C128, (int)C128, (int)C64, (int)CM, (int)P128, (int)P64, (int)PM);
     g.add_slot(kind, 256, *rc::gen::element(0, 0, 0xFF, 0xA5));
     int n = *irange(3, 24);
